@@ -29,7 +29,11 @@ CONSTANTS Kind,        \* "VI" | "RVI" | "PVI"
           Periods,     \* PVI periods
           NumGadgets,  \* how many random tables of each sort
           MaxScale,    \* exploration stops when the scale exceeds this
-          MaxIter
+          MaxIter,
+          Bug          \* "none", or a seeded design fault that must violate an invariant (anti-vacuity):
+                       \*   "rvi_gain_zero"       gain starts at 0 whatever the initial values (the code before its fix)
+                       \*   "pvi_ring_mod_period" ring-buffer arithmetic modulo period instead of period + 1
+                       \*   "threshold_no_gamma"  discounted threshold eps instead of eps*(1-gamma)/gamma
 
 GammaOne == {<<1, 1>>}
 GammaHalf == {<<1, 2>>}
@@ -76,7 +80,10 @@ Gadgets ==
       IN { LET sh == Shape(nx, pk, PD)
            IN [ns |-> NS, na |-> NA, ne |-> NE, next |-> sh.next, rew |-> rw, pk |-> sh.pk,
                PD |-> PD, GN |-> g[1], GD |-> g[2]] :
-             nx \in nexts, rw \in RandomSubset(2, rews), pk \in RandomSubset(2, pks) }
+             nx \in nexts, pk \in RandomSubset(2, pks),
+             \* for RVI also constant-reward gadgets (their span collapses at the first sweep)
+             rw \in RandomSubset(2, rews) \cup (IF Kind = "RVI"
+                       THEN {[s \in S |-> [a \in A |-> [e \in E |-> r]]] : r \in {1, 3}} ELSE {}) }
       : g \in Gammas } : PD \in PDs }
 
 (* ---- rational helpers ----------------------------------------------------*)
@@ -93,7 +100,7 @@ AtScale(mm, d) == [mm EXCEPT !.rew = [s \in S |-> [a \in A |-> [e \in E |-> mm.r
 (* conv/cs < threshold(eps) ?   eps = <<n, d>> *)
 Below(c, d) ==
   IF d = 0 THEN FALSE
-  ELSE IF Kind \in {"RVI", "PVI"} \/ m.GN = m.GD
+  ELSE IF Kind \in {"RVI", "PVI"} \/ m.GN = m.GD \/ Bug = "threshold_no_gamma"
   THEN c * eps[2] < eps[1] * d
   ELSE c * m.GN * eps[2] < eps[1] * (m.GD - m.GN) * d
 
@@ -103,7 +110,7 @@ Init ==
   /\ eps \in EpsSet /\ test \in Tests /\ period \in Periods
   /\ V \in [S -> V0Set] /\ sc = 1
   /\ iter = 0
-  /\ gain = IF Kind = "RVI" THEN V[NS] ELSE 0     \* gain starts as the reference state's initial value
+  /\ gain = IF Kind = "RVI" /\ Bug # "rvi_gain_zero" THEN V[NS] ELSE 0   \* gain starts as the reference state's initial value
   /\ ring = [k \in 1..(period + 1) |-> IF k = 1 THEN <<V, 1>> ELSE <<[s \in S |-> 0], 1>>]
   /\ hidx = 1
   /\ all = <<<<V, 1>>>>
@@ -130,7 +137,8 @@ DocMeasure(allNew, n, d) ==
             d * Pow(m.GN, n - 1)>>
 
 (* the code's ring-buffer measure: PVI_InfiniteMeasureBeforeOnePeriod; slot arithmetic as in the code *)
-Slot(k) == ((k - 1) % (period + 1)) + 1                  \* 1-based slots
+RingSize == IF Bug = "pvi_ring_mod_period" /\ period > 1 THEN period ELSE period + 1
+Slot(k) == ((k - 1) % RingSize) + 1                      \* 1-based slots
 RingMeasure(ringNew, hNew, n, d) ==
   IF n < period THEN <<0, 0>>
   ELSE IF m.GN = m.GD
@@ -138,8 +146,8 @@ RingMeasure(ringNew, hNew, n, d) ==
        IN <<SpanOf(Diff(Lift(ringNew[hNew][1], ringNew[hNew][2], d),
                         Lift(ringNew[prev][1], ringNew[prev][2], d), NS), NS), d>>
   ELSE LET term(q, s) ==                  \* q = p + 1 in the code's loop, p = 0..period-1
-             LET cur == Slot(hNew - (q - 1) + (period + 1))
-                 prv == Slot(cur - 1 + (period + 1))
+             LET cur == Slot(hNew - (q - 1) + RingSize)
+                 prv == Slot(cur - 1 + RingSize)
              IN (Lift(ringNew[cur][1], ringNew[cur][2], d)[s] - Lift(ringNew[prv][1], ringNew[prv][2], d)[s])
                   * Pow(m.GD, n - (q - 1) - 1) * Pow(m.GN, q - 1)
        IN <<SpanOf([s \in S |-> SumTo([q \in 1..period |-> term(q, s)], period)], NS),
